@@ -334,6 +334,9 @@ func init() {
 			{"auth", []swCaller{C("membership", "tokA", "", "a@x.io", "g2", "g1"), C("membership", "tokZ", "", "a@x.io", "g1", "g2"), C("membership", "tokA", "", "a@x.io", "g1")}, false},
 			{"auth", []swCaller{C("revoke", "tokA", "rA", ""), C("validate", "tokA", "rA", ""), C("revoke", "tokA", "rA", ""), C("validate", "tokA", "rA", "")}, false},
 			{"auth", []swCaller{C("refreshToken", "", "rA", ""), C("refreshToken", "", "rA", ""), C("refreshToken", "", "rB", "")}, true},
+			// two devices of one user sign out at the same time: each token gets its own revocation
+			{"auth", []swCaller{C("revoke", "tokA", "rA", "a@x.io"), C("revoke", "tokB", "rB", "a@x.io"), C("revoke", "tokA", "rA", "a@x.io")}, false},
+			{"auth", []swCaller{C("revoke", "tokA", "rA", "a@x.io"), C("revoke", "tokB", "rB", "a@x.io")}, true},
 		}
 		for _, cs := range prelude {
 			emit(cs)
